@@ -169,7 +169,13 @@ def rule_r4(ctx) -> List[R.Inst]:
 def rule_dep(ctx):
     """obligations inherited from shared code reached through the call graph (sa/props/deps.py)"""
     from .deps import dep_insts
-    return dep_insts(ctx, "C13", ["reamber.base.Map.Map.rate", "reamber.base.MapSet.MapSet.rate", "reamber.osu.OsuMap.OsuMap.rate", "reamber.sm.SMMapSet.SMMapSet.rate"], skip_groups=())
+    return dep_insts(ctx, "C13", ["reamber.base.Map.Map.rate", "reamber.base.MapSet.MapSet.rate", "reamber.osu.OsuMap.OsuMap.rate", "reamber.sm.SMMapSet.SMMapSet.rate",
+                                    # "writing the rated chart and reading it back gives the rated timeline": the file rules
+                                    # of every writable game are obligations of this property too
+                                    "reamber.osu.OsuMap.OsuMap.write", "reamber.quaver.QuaMap.QuaMap.write",
+                                    "reamber.sm.SMMapSet.SMMapSet.write", "reamber.bms.BMSMap.BMSMap.write",
+                                    "reamber.osu.OsuMap.OsuMap.read", "reamber.quaver.QuaMap.QuaMap.read",
+                                    "reamber.sm.SMMapSet.SMMapSet.read", "reamber.bms.BMSMap.BMSMap.read"], skip_groups=())
 
 
 SPECS = [
